@@ -81,7 +81,18 @@ POOL.update(
 FORMAT_OF = {"YK": "kida", "YU": "umist", "YC": "uclchem", "ZK": "kida", "ZU": "umist", "WL": "leeds"}
 IDS4 = ["Y0", "YK", "YU", "YC", "ZK", "ZU", "W0", "WL"]
 IDS2 = ["E0", "E1", "E2", "O0", "O1", "S0", "S1", "A0", "A3", "A7", "A8"]
-IDS = [k for k in POOL if k not in ("E0", "E1", "E2", "O0", "O1", "S0", "S1", "A7", "A8", "F0", "F1", "F2", "F3", "A9", "N2", "N3", "N4", "Y0", "YK", "YU", "YC", "ZK", "ZU", "W0", "WL")]
+# fifth pool: windows that differ by a fraction of a kelvin only (legal floats in every format)
+POOL.update(
+    {
+        "Q1": (["H", "H", "e-"], ["H2", "e-"], (10.5, 300.0), "GAS_TWOBODY"),
+        "Q2": (["H", "H", "e-"], ["H2", "e-"], (10.0, 299.5), "GAS_TWOBODY"),
+        "Q3": (["H", "H", "e-"], ["H2", "e-"], (10.5, 299.9), "GAS_TWOBODY"),
+        "Q4": (["H", "H", "e-"], ["H2", "e-"], (10.9, 299.5), "GAS_TWOBODY"),
+        "Q5": (["H", "H", "e-"], ["H2", "e-"], (0.5, 300.0), "GAS_TWOBODY"),
+    }
+)
+IDS5 = ["A3", "Q1", "Q2", "Q3", "Q4", "Q5", "A0"]
+IDS = [k for k in POOL if k not in ("Q1", "Q2", "Q3", "Q4", "Q5", "E0", "E1", "E2", "O0", "O1", "S0", "S1", "A7", "A8", "F0", "F1", "F2", "F3", "A9", "N2", "N3", "N4", "Y0", "YK", "YU", "YC", "ZK", "ZU", "W0", "WL")]
 MODES = [None, "brief", "minimal", "short"]
 
 
@@ -256,6 +267,7 @@ def run(ctx):
     lists += [l for n in range(2, 5) for l in itertools.product(IDS2, repeat=n)]
     lists += [l for n in range(2, 5) for l in itertools.product(IDS3, repeat=n)]
     lists += [l for n in range(2, 4) for l in itertools.product(IDS4, repeat=n)]
+    lists += [l for n in range(2, 4) for l in itertools.product(IDS5, repeat=n)]
     chunks = [lists[i : i + 300] for i in range(0, len(lists), 300)]
     tot = judged = skipped = 0
     for n, j, s, viols in ctx.pmap(run_chunk, chunks):
@@ -276,7 +288,7 @@ def run(ctx):
         "evaluations": judged + skipped + nedit,
         "searches_after_in_place_edit": nedit,
         "distinct_nontrivial": judged,
-        "rule": f"all lists of length <= {nmax} over a pool of 11 reactions (two bases, a multiplicity-only pair; permuted reactants / products, windows differing in both bounds / only the upper / only the lower bound, other type, unknown type) a second pool of electron/label permutations a third of reactions with an empty side and a fourth holding one reaction as instances of the plain, KIDA, UMIST and UCLCHEM classes x modes default/brief/minimal/short; O(n^2) pairwise reference; removal round trip and second call",
+        "rule": f"all lists of length <= {nmax} over a pool of 11 reactions (two bases, a multiplicity-only pair; permuted reactants / products, windows differing in both bounds / only the upper / only the lower bound, other type, unknown type) a second pool of electron/label permutations a third of reactions with an empty side and a fourth holding one reaction as instances of the plain, KIDA, UMIST and UCLCHEM classes and a fifth of windows differing by a fraction of a kelvin x modes default/brief/minimal/short; O(n^2) pairwise reference; removal round trip and second call",
         "samples": [list(l) for l in lists[:: max(1, len(lists) // 6)][:6]],
         "lists": len(lists),
         "judged_list_mode_pairs": judged,
